@@ -231,6 +231,24 @@ def run(F, R, tier):
     byn = [n for n in an["_nodes"] if n.get("k") == "Field" and n["field"] == "packages_by_name"]
     R.ob("C07-d", "add_nv indexes the selection by package name (feeds tier-1 unification)", len(byn) >= 1 and any(n.get("k") == "MethodCall" and n["name"] == "push" for n in an["_nodes"]), "packages_by_name no longer updated", an["file"])
 
+    # a manifest whose `exports` is a single string exports exactly "."
+    ex = F.body("packages::JsrPackageVersionInfo::export")
+    vals = []
+    _tail_values(F, ex["body"]["value"], vals)
+    n_s = 0
+    for v in vals:
+        g = guards_at(F, v)
+        in_string = any(x.kind == "pat" and x.pol and "Value::String" in pat_text(x.pat) and tyc(F, x.scrut, "serde_json::Value") and not tyc(F, x.scrut, "Option<") for x in g)
+        if not in_string:
+            continue
+        n_s += 1
+        dot = [x for x in g if x.kind == "cond" and x.node.get("k") == "Binary" and x.node["op"] in ("==", "!=") and any(peel(x.node[s_]).get("v") == "." for s_ in ("l", "r"))]
+        is_dot = any(x.pol == (x.node["op"] == "==") for x in dot)
+        some = ctor_of(v) == "std::option::Option::Some"
+        R.ob("C07-a", "string-valued exports: `%s` is answered for %s" % ("Some(path)" if some else "None", "the `.` export" if is_dot else "any other export"), bool(dot) and some == is_dot,
+             "JsrPackageVersionInfo::export returns %s for %s when the manifest's exports is a plain string: a missing export would redirect to the main entry (or the main entry would be unknown)" % ("a path" if some else "None", "`.`" if is_dot else "names other than `.`"), where(v))
+    R.floor("C07-a results of export() for string manifests", n_s, 2)
+
     # ---------------- C07-f ------------------------------------------------
     # redirects seeded from a lockfile never shadow a jsr: / npm: / file: specifier: a jsr:
     # specifier must go through resolve_pending_jsr_specifiers (export lookup, mappings,
